@@ -20,6 +20,20 @@ def get_fn(facts, crate, path):
     return fn_of(b)
 
 
+def spawner_fn(facts):
+    """The body of Nucleo that hands the run closure to the thread pool: tick_inner, or -- when tick has been
+    re-architected -- the one method of Nucleo that calls ThreadPool::spawn."""
+    b = facts.body("nucleo", "Nucleo::<T>::tick_inner")
+    def spawns(b_):
+        return any(blk["term"]["k"] == "call" and str(blk["term"].get("resolved") or blk["term"].get("fn")) == "rayon::ThreadPool::spawn" for blk in b_["blocks"])
+    if b is not None and spawns(b):
+        return fn_of(b)
+    m = [b_ for b_ in facts.bodies_of("nucleo") if b_["path"].startswith("Nucleo::<T>::") and b_.get("kind") != "Closure" and spawns(b_)]
+    if len(m) != 1:
+        raise Inconclusive("the method of Nucleo that spawns the worker run: %d candidates" % len(m))
+    return fn_of(m[0])
+
+
 def find_fn(facts, crate, suffix):
     """Unique body whose path ends with `suffix` (e.g. '::tick_inner')."""
     m = [b for b in facts.bodies_of(crate) if b["path"].endswith(suffix)]
